@@ -178,6 +178,11 @@ def rt_str(x="", *a):
         return int_to_str(x)
     if isinstance(x, SBool):
         return "True" if x else "False"
+    if isinstance(x, BaseException) and not a:
+        if len(x.args) == 1 and isinstance(x.args[0], SStr) and type(x).__str__ is BaseException.__str__:
+            return x.args[0]
+        if _deep_has_sym(x.args):
+            return "sym-str"
     return str(x, *a)
 
 
@@ -232,7 +237,10 @@ def rt_fmt(value, conv, spec):
             return value
         raise Unsupported("format spec on symbolic string")
     if isinstance(value, SInt):
-        return format(core.engine().concretize_int(value), spec if isinstance(spec, str) else "")
+        v = unique_int(value)
+        if v is None:
+            return "sym-int"  # message text only: a symbolic integer with several feasible values
+        return format(v, spec if isinstance(spec, str) else "")
     if isinstance(value, SBool):
         value = bool(value)
     if conv == ord("r"):
@@ -245,6 +253,18 @@ def rt_fmt(value, conv, spec):
         return format(value, spec)
     except Unsupported:
         return "sym-fmt"
+
+
+def unique_int(x):
+    """The value of a symbolic int if the path condition pins it to one value, else None (no fork)."""
+    import z3
+
+    eng = core.engine()
+    m = eng._get_model()
+    val = m.eval(x.e, model_completion=True).as_long()
+    if eng._check(x.e != val) == z3.unsat:
+        return val
+    return None
 
 
 def _deep_has_sym(v, depth=0):
